@@ -73,7 +73,7 @@ NA = {
 PENDING = []
 
 CERT = (" PLUS the certificate engine (second engine, DESIGN 8.2): the real Solver::solve (dev and release builds, real dependencies) is run on every universe of an "
-        "enumerated bounded family (400 per family quick, 5000 thorough; families plain/full/wide/hints/hard/deep/lazycon/soft/reuse) and z3 decides over ALL selections of the solvables: ")
+        "enumerated bounded family (400 per family quick, 5000 thorough; families plain/full/wide/hints/hard/deep/lazycon/soft/softx/reuse/async/snapshot, see DESIGN 8.2) and z3 decides over ALL selections of the solvables: ")
 CERT_NOTE = " Certificate engine: universes are enumerated by a seeded generator (not symbolic); Spec(U) is written from the text of C01; read-only dump accessors are attached to the scratch copy under cfg(verif_cert); z3 (python3-vt) trusted, `unknown` => inconclusive."
 CHECKS["C01"]["text"] += CERT + "the returned solution satisfies Spec(U), and the clause database emitted by the real Encoder implies Spec(U) restricted to everything that was fetched (no requirement, constrains entry, lock, exclusion or one-per-package fact is missing)."
 CHECKS["C01"]["note"] += CERT_NOTE
@@ -100,6 +100,8 @@ NEW = {
     "C14": ("Problems with 1-3 soft requirements: z3 decides SAT(Spec(hard)) (SAT => solve must succeed); the returned set must satisfy Spec(U) for the hard part and every accepted soft solvable (dependencies, constrains, Unknown rejected, one solvable per package; only the lock/exclusion list of the directly named solvable's own package is exempt); when the hard problem is conflict-free and the first soft solvable's preferred closure is consistent with it (z3), that solvable must be installed. PARTIAL: universes are enumerated; only the first soft requirement's inclusion is checked.",
             "SMT (z3) decision of hard-problem satisfiability, solution validity and soft-closure compatibility, per enumerated universe"),
 }
+NEW["C10"] = ("Every universe of the families async/asynchard is solved through an ASYNCHRONOUS provider whose get_candidates / get_dependencies futures are completed one at a time by a scheduler, under four completion orders (oldest first, newest first, two pseudo-random): each run must terminate (a pending solver with no outstanding request is reported as a deadlock), its verdict must equal z3's verdict on Spec(U) and the synchronous run's, its solution must satisfy Spec(U) (z3), and no candidates/dependencies request may be issued twice. PARTIAL: universes and completion orders are enumerated (not symbolic); C11 (concurrency of issuing) is not decided.",
+              "SMT (z3) decision of verdict and solution validity for every enumerated (universe, completion order) pair of the real solver under a scheduled asynchronous runtime")
 for k, (text, tech) in NEW.items():
     CHECKS[k] = dict(text=text, note="certificate engine only." + CERT_NOTE, technique=tech, engine="cert", category="translation_validation", ref="DESIGN.md 8.2/" + k)
     NA.pop(k, None)
@@ -138,7 +140,7 @@ def main():
         "engines": [
             {"name": "kani", "path": "/verif/lib/common.py", "serves_properties": sorted(k for k in CHECKS if CHECKS[k].get("engine", "kani") == "kani"),
              "kind_free_text": "cargo-kani 0.68 (CBMC 6.11 + CaDiCaL) on harnesses under /verif/kani attached to a scratch copy of /repo"},
-            {"name": "cert", "path": "/verif/lib/cert.py", "serves_properties": ["C01", "C02", "C03", "C04", "C05", "C07", "C08", "C13", "C14", "C15", "C16"],
+            {"name": "cert", "path": "/verif/lib/cert.py", "serves_properties": ["C01", "C02", "C03", "C04", "C05", "C07", "C08", "C10", "C13", "C14", "C15", "C16"],
              "kind_free_text": "certificate engine: native/cert runs the real Solver::solve of the scratch copy on enumerated universes and dumps clause database, learnt clauses, conflict graph; lib/cert.py asks z3 (python3-vt) the entailment/satisfiability questions over all selections"},
             {"name": "z3", "path": "/verif/lib/c15_z3.py", "serves_properties": ["C15"],
              "kind_free_text": "z3 (python3-vt) + cvc5 on the CNF emitted by the real binary_encoding.rs executed natively from the scratch copy"},
